@@ -18,10 +18,10 @@ pub fn prop() -> Prop {
             "sizes <= 40 (images <= 17), stroke widths <= 40",
         ],
         subs: vec![
-            Sub::tape("primitives", 40, 24_000, 800_000, |d, cx| run(d, cx, 0)),
-            Sub::tape("polylines", 40, 4_000, 150_000, |d, cx| run(d, cx, 1)),
-            Sub::tape("images", 400, 5_000, 150_000, |d, cx| run(d, cx, 2)),
-            Sub::tape("text", 60, 4_000, 120_000, |d, cx| run(d, cx, 3)),
+            Sub::tape("primitives", 40, 240_000, 3_600_000, |d, cx| run(d, cx, 0)),
+            Sub::tape("polylines", 40, 40_000, 600_000, |d, cx| run(d, cx, 1)),
+            Sub::tape("images", 120, 50_000, 750_000, |d, cx| run(d, cx, 2)),
+            Sub::tape("text", 60, 40_000, 600_000, |d, cx| run(d, cx, 3)),
         ],
     }
 }
